@@ -25,6 +25,9 @@ claims = {
  'C05': dict(engine='seq', cat='model_checking', ref='DESIGN.md §3 C05',
    text="Exhaustive over all 512 families of three subsets of a 3-element universe as initial states: every SADD/SREM/SMOVE (incl. source = destination) and every SINTER/SUNION/SDIFF[STORE]/SINTERCARD over operand tuples of length 1-3 with repetition, missing and wrong-typed operands and every destination (operand or not), compared with set algebra on reply and on SMEMBERS/SCARD/TYPE/EXISTS of all keys (operands must stay unchanged).",
    note=E1_NOTE, tech=E1_TECH),
+ 'C18': dict(engine='seq', cat='model_checking', ref='DESIGN.md §3 C18',
+   text="Bounded exhaustive: BITFIELD/BITFIELD_RO GET/SET/INCRBY for every type i1..i64 and u1..u63 x bit offsets 0..16 and #0..#2 (every offset mod 8, spans of 1..9 bytes) x boundary values (0, +-1, min, max, min-1, max+1, +-2^62, +-2^63) x OVERFLOW WRAP/SAT/FAIL, sticky OVERFLOW chains, SETBIT/GETBIT offsets, BITCOUNT and BITPOS for all start/end in -20..20 in BYTE and BIT units, BITOP over operand tuples of every length class - from seven base strings (and, thorough, the states a set of mutators reaches), compared with a big-endian bit-array reference on math/big on reply and on GET/TYPE/EXISTS/PTTL of every key (only addressed bits change, reads change nothing).",
+   note=E1_NOTE, tech=E1_TECH),
 }
 pending_reason = "check not built yet (work in progress in this session; see DESIGN.md build order)"
 
